@@ -52,6 +52,7 @@ def run(chk, replay=None):
                 chk.fail('discouraged-codepoint', {'context': ctx, 's': enc_str(s)}, 'parsed back as %r' % (got,))
     C.adjacent_nodes_check(chk, drv, want_identity=True)
     C.trees_check(chk, drv, want_identity=True, discouraged=True)
+    C.extreme_trees_check(chk, drv, want_identity=True)
     C.documents_check(chk, want_identity=True, drv=drv)
     C.loaded_samples_check(chk, want_identity=True)
     return chk.finish()
